@@ -371,7 +371,7 @@ class LogicalType(type):  # noqa
                 except Exception as e:
                     context.handle_error(e)
                     break
-            return value
+            # fall through: a collected error must still be raised (collect_errors=True)
 
         elif cls.combinator == "|":
             # Union type
